@@ -40,7 +40,7 @@ def run(run):
     run.assumptions += ["the prebuilt _libtoasty extension corresponds to toasty/_libtoasty.pyx",
                         "`mid(a, b)` is the symmetric great-circle midpoint"]
     run.undecided_clauses += ["tile areas sum to the sphere", "bit-equality of edges shared by tiles of different parents"]
-    for r, n in (("C04.R1", 1), ("C04.R2", 2), ("C04.R3", 4), ("C04.R4", 1), ("C04.R5", 4), ("C04.R6", 1)):
+    for r, n in (("C04.R1", 1), ("C04.R2", 2), ("C04.R3", 4), ("C04.R4", 1), ("C04.R5", 4), ("C04.R6", 1), ("C04.R7", 3)):
         run.floor(r, n)
     _r1_level1(run)
     _r2_level1_tiles(run)
@@ -48,6 +48,7 @@ def run(run):
     _r4_constructors(run)
     _r5_routes(run)
     _r6_state(run)
+    _r7_area(run)
 
 
 # documented layout: for tile (x, y): which corner (index in UL,UR,LR,LL) is the north pole (square centre),
@@ -380,6 +381,93 @@ def _r5_routes(run):
         run.violated("C04.R5", f, None, "create_single_tile " + "; ".join(problems), kind="route-single-tile", problems=problems)
     else:
         run.holds("C04.R5", f, None, "single tile: children[2*iy+ix] from the bits of (pos.x, pos.y), down to bit 0")
+
+
+def _r7_area(run):
+    """The area of a tile is computed by one exact spherical formula for every tile: the arc length is the law of cosines
+    for every pair of points (no regime-dependent approximation), the triangle area uses the three sides of its own three
+    vertices, and a tile is the two triangles on either side of its own diagonal."""
+    project = run.project
+    ev = sym.make_evaluator(project, T, [])
+    f = project.funcs.get(T + "._arclength")
+    if f is None:
+        run.undecided("C04.R7", None, None, "toasty.toast._arclength not found", kind="anchor", construct="_arclength", file="toasty/toast.py")
+        return
+    run.note_func(f)
+    r = ev.run(f.node)
+    la1, lo1, la2, lo2 = (("sym", p) for p in f.params()[:4])
+    want = ev.expr("np.arccos(np.sin(a) * np.sin(b) + np.cos(c - d) * np.cos(a) * np.cos(b))", {"a": la1, "b": la2, "c": lo1, "d": lo2})
+    want2 = ev.expr("np.arccos(np.sin(a) * np.sin(b) + np.cos(d - c) * np.cos(a) * np.cos(b))", {"a": la1, "b": la2, "c": lo1, "d": lo2})
+    val = boolalg.fold_returns(r.returns) if r.returns else None
+    if val is None:
+        run.undecided("C04.R7", f, None, "_arclength returns nothing", kind="arclength-shape")
+    elif val in (want, want2):
+        run.holds("C04.R7", f, None, "arc length = arccos(sin sin + cos(dlon) cos cos) for every pair of points")
+    elif val[0] == "ite" or len(r.returns) > 1:
+        run.violated("C04.R7", f, r.returns[0][2], "_arclength uses different formulas depending on its arguments (%s): an approximation for some arcs makes the areas of the "
+                     "tiles it bounds inexact, so areas no longer add up to the sphere / to the parent's area" % show(val[1] if val[0] == "ite" else val)[:100],
+                     kind="arclength-regimes")
+    else:
+        run.undecided("C04.R7", f, None, "_arclength is %s; cannot relate it to the spherical law of cosines" % show(val)[:120], kind="arclength-formula")
+    g = project.funcs.get(T + "._spherical_triangle_area")
+    h = project.funcs.get(T + ".toast_tile_area")
+    if g is None or h is None:
+        run.undecided("C04.R7", None, None, "triangle / tile area functions not found", kind="anchor", construct="toast_tile_area", file="toasty/toast.py")
+        return
+    run.note_func(g, h)
+    rg = ev.run(g.node)
+    ps = [("sym", p) for p in g.params()[:6]]
+    V = [(ps[0], ps[1]), (ps[2], ps[3]), (ps[4], ps[5])]
+    arcs = [e for e in rg.events if e.kind == "call" and e.term[1] == ("sym", "_arclength") and len(e.term[2]) == 4]
+    sides = set()
+    for e in arcs:
+        a = e.term[2]
+        p1, p2 = (a[0], a[1]), (a[2], a[3])
+        if p1 in V and p2 in V and p1 != p2:
+            sides.add(frozenset((V.index(p1), V.index(p2))))
+    if len(arcs) == 3 and sides == {frozenset((0, 1)), frozenset((1, 2)), frozenset((0, 2))}:
+        run.holds("C04.R7", g, None, "triangle area from the three sides joining its own three vertices (lat, lon pairs kept together)")
+    else:
+        run.violated("C04.R7", g, arcs[0].node if arcs else None, "_spherical_triangle_area does not take the arc lengths of the three sides of its own triangle "
+                     "(%d arcs, sides %s)" % (len(arcs), sorted(sorted(x) for x in sides)), kind="triangle-sides")
+    # a tile = two triangles sharing its diagonal: increasing -> (ul, ur, ll) + (ur, lr, ll); else (ul, ur, lr) + (ul, ll, lr).
+    # Decided by evaluating toast_tile_area under each orientation (local helpers inlined).
+    tile = ("sym", h.params()[0])
+    cs = ("attr", tile, "corners")
+    corner = lambda i: (("item", ("item", cs, i), 1), ("item", ("item", cs, i), 0))      # (lat, lon) = (c[1], c[0])
+    inc = ("attr", tile, "increasing")
+    want_t = {True: {frozenset((0, 1, 3)), frozenset((1, 2, 3))}, False: {frozenset((0, 1, 2)), frozenset((0, 3, 2))}}
+    got = {}
+    okc = True
+    first_node = None
+    for pol in (True, False):
+        ev2 = sym.make_evaluator(project, T, [], inline_local=True, no_inline=("_spherical_triangle_area", "_arclength"))
+        ev2.assume = (lambda c, pol=pol: pol if c == inc else None)
+        rh = ev2.run(h.node)
+        tri = [e for e in rh.events if e.kind == "call" and e.term[1] == ("sym", "_spherical_triangle_area") and len(e.term[2]) == 6]
+        first_node = first_node or (tri[0].node if tri else None)
+        got[pol] = []
+        for e in tri:
+            a = e.term[2]
+            vs = []
+            for j in range(3):
+                pr = (a[2 * j], a[2 * j + 1])
+                idx = [i for i in range(4) if corner(i) == pr]
+                if not idx:
+                    okc = False
+                else:
+                    vs.append(idx[0])
+            got[pol].append(frozenset(vs))
+        total = boolalg.fold_returns(rh.returns)
+        if okc and total is not None and len(tri) == 2:
+            want_sum = sym.add(tri[0].term, tri[1].term)
+            if total != want_sum:
+                okc = False
+    if okc and all(set(got[p_]) == want_t[p_] and len(got[p_]) == 2 for p_ in (True, False)):
+        run.holds("C04.R7", h, None, "tile area = the two triangles on either side of the tile's own diagonal, corners taken as (lat, lon) = (c[1], c[0])")
+    else:
+        run.violated("C04.R7", h, first_node, "toast_tile_area is not the sum of the two triangles on either side of the tile's own diagonal "
+                     "(increasing: %s, otherwise: %s)" % ([sorted(x) for x in got.get(True, [])], [sorted(x) for x in got.get(False, [])]), kind="tile-triangles")
 
 
 def _r6_state(run):
